@@ -1702,6 +1702,13 @@ func (w *W) readCount(h *Handle) {
 	}
 	k := ks[w.R.T.Choose(len(ks), "count-key")]
 	c := h.M.D[k]
+	// with a path separator the name may be a dotted path (the documentation of CountField lists PathSep)
+	for depth := 0; depth < 2 && w.Sep != "" && c.PureDict() && w.R.T.Chance(1, 2, "count-dotted"); depth++ {
+		kks := c.Keys()
+		kk := kks[w.R.T.Choose(len(kks), "count-key-below")]
+		k, c = k+w.Sep+kk, c.D[kk]
+		w.R.Probe("count: CountField with a dotted path")
+	}
 	want := -1
 	switch {
 	case c.K == model.KNil:
